@@ -388,6 +388,9 @@ bool SessionManager::send(const PeerId& peer_id, std::span<const std::uint8_t> p
 
     std::copy(ciphertext.begin(), ciphertext.end(), buffer.begin() + kNonceSize + kLengthFieldSize);
 
+    // Several threads send to the same peer (tick loop, control handlers, session readers answering requests):
+    // a frame must reach the stream in one piece.
+    std::scoped_lock send_lock(session->send_mutex);
     return send_all(session->socket, buffer.data(), buffer.size());
 }
 
